@@ -118,6 +118,21 @@ decay(struct expr *e)
 	return e;
 }
 
+/* the qualifiers of an array type belong to its element type (C11 6.7.3p9) */
+static struct type *
+qualifyarray(struct type *t, enum typequal qual)
+{
+	struct type *new;
+
+	new = xmalloc(sizeof(*new));
+	*new = *t;
+	if (t->base->kind == TYPEARRAY)
+		new->base = qualifyarray(t->base, qual);
+	else
+		new->qual |= qual;
+	return new;
+}
+
 static struct expr *
 mkunaryexpr(enum tokenkind op, struct expr *base)
 {
@@ -139,7 +154,11 @@ mkunaryexpr(enum tokenkind op, struct expr *base)
 			error(&tok.loc, "'&' operand is not an lvalue or function designator");
 		if (base->kind == EXPRBITFIELD)
 			error(&tok.loc, "cannot take address of bit-field");
-		expr = mkexpr(EXPRUNARY, mkpointertype(base->type, base->qual), base);
+		if (base->type->kind == TYPEARRAY && base->qual && !(base->type->prop & PROPVM))
+			type = mkpointertype(qualifyarray(base->type, base->qual), QUALNONE);
+		else
+			type = mkpointertype(base->type, base->qual);
+		expr = mkexpr(EXPRUNARY, type, base);
 		expr->op = op;
 		return expr;
 	case TMUL:
